@@ -107,18 +107,11 @@ Proof.
   rewrite He, orb_false_r in H. unfold site_ok in H. now rewrite Hr in H.
 Qed.
 
-(* the known findings are exact: each key names a site of the list that prints declaration text
-   without escaping it *)
-Theorem known_sites_unescaped : forall key, In key (known_unescaped ++ inert_by_construction) ->
-  exists st, find_site key sites = Some st /\ reads_source_text st = true /\ escaped st = false.
+(* no excused site is left: every site that prints declaration text escapes it *)
+Theorem sites_escaped : forall st,
+  In st sites -> reads_source_text st = true -> escaped st = true.
 Proof.
-  assert (H : forallb (fun key => match find_site key sites with
-                                  | Some st => reads_source_text st && negb (escaped st)
-                                  | None => false end)
-                      (known_unescaped ++ inert_by_construction) = true) by (vm_compute; reflexivity).
-  intros key Hk. pose proof (forallb_In _ _ H key Hk) as E. cbv beta in E.
-  destruct (find_site key sites) as [st|]; [|discriminate].
-  exists st. apply andb_true_iff in E as [E1 E2]. apply negb_true_iff in E2. auto.
+  intros st Hin Hr. apply sites_escaped_partial; auto.
 Qed.
 
 Lemma find_site_In key l st : find_site key l = Some st -> In st l.
@@ -127,23 +120,49 @@ Proof.
   destruct (str_eqb key (st_key a)); [intros [= ->]; now left | intros F; right; auto].
 Qed.
 
-Definition sites_escaped_statement : Prop :=
-  forall st, In st sites -> reads_source_text st = true -> escaped st = true.
-
-Theorem sites_escaped_refuted : ~ sites_escaped_statement.
+Example sites_escaped_nonvacuous :
+  (exists st, In st sites /\ reads_source_text st = true /\ str_in (s "e") (st_filters st) = true) /\
+  (exists st, In st sites /\ reads_source_text st = true /\ st_filters st = [s "relurl"] /\
+              str_in (st_field st) text_escaped_at_source = true).
 Proof.
-  intros H.
-  destruct (known_sites_unescaped (s "macros.html:var.full_type | relurl(page_url)#1")) as (st & F & R & E).
-  { vm_compute. auto 20. }
-  assert (Hin : In st sites) by (eapply find_site_In; eauto).
-  rewrite (H st Hin R) in E. discriminate.
+  split.
+  - destruct (find_site (s "macros.html:var.initial|e#1") sites) as [st|] eqn:F; [|vm_compute in F; discriminate F].
+    exists st. split; [eapply find_site_In; eauto|]. vm_compute in F. injection F as <-. vm_compute. auto.
+  - destruct (find_site (s "macros.html:var.full_type | relurl(page_url)#1") sites) as [st|] eqn:F;
+      [|vm_compute in F; discriminate F].
+    exists st. split; [eapply find_site_In; eauto|]. vm_compute in F. injection F as <-. vm_compute. auto.
 Qed.
 
-Example sites_escaped_partial_nonvacuous :
-  exists st, In st sites /\ reads_source_text st = true /\ site_excused st = false /\ escaped st = true.
+(* ---------- the text-level escape ---------- *)
+
+Lemma escape_text_ch_cases c :
+  (c = c_amp /\ escape_text_ch c = s "&amp;") \/ (c = c_lt /\ escape_text_ch c = s "&lt;") \/
+  (c = c_gt /\ escape_text_ch c = s "&gt;") \/
+  (ch_eqb c c_amp = false /\ ch_eqb c c_lt = false /\ escape_text_ch c = [c]).
 Proof.
-  destruct (find_site (s "macros.html:var.initial|e#1") sites) as [st|] eqn:F; [|vm_compute in F; discriminate F].
-  exists st.
-  assert (Hin : In st sites) by (eapply find_site_In; eauto).
-  split; [exact Hin|]. vm_compute in F. injection F as <-. vm_compute. auto.
+  unfold escape_text_ch.
+  destruct (ch_eqb c c_amp) eqn:E1; [apply Ascii.eqb_eq in E1; auto|].
+  destruct (ch_eqb c c_lt) eqn:E2; [apply Ascii.eqb_eq in E2; auto|].
+  destruct (ch_eqb c c_gt) eqn:E3; [apply Ascii.eqb_eq in E3; auto 6|].
+  auto 8.
 Qed.
+
+Lemma vis_escape_text_ch c rest :
+  vis false 0 (escape_text_ch c ++ rest) = (c :: fst (vis false 0 rest), snd (vis false 0 rest)).
+Proof.
+  destruct (escape_text_ch_cases c) as [[-> ->]|[[-> ->]|[[-> ->]|(E1 & E2 & ->)]]];
+    try (simpl; destruct (vis false 0 rest); reflexivity).
+  simpl. rewrite E2, E1. simpl. destruct (vis false 0 rest); reflexivity.
+Qed.
+
+(* in element content the reader sees exactly the original text and no element *)
+Theorem render_escape_text x : render_text (escape_text x) = (x, 0).
+Proof.
+  unfold render_text. induction x as [|c x IH]; [reflexivity|].
+  simpl escape_text. rewrite vis_escape_text_ch, IH. reflexivity.
+Qed.
+
+Example escape_text_nonvacuous :
+  escape_text (s "kind(k<n) & 'a'") = s "kind(k&lt;n) &amp; 'a'" /\
+  render_text (escape_text (s "kind(k<n) & 'a'")) = (s "kind(k<n) & 'a'", 0).
+Proof. vm_compute. auto. Qed.
